@@ -340,6 +340,7 @@ class PipeWorld(World):
         self.rx_count = 0
         self.reported_excs = []
         self.express_wire = {}
+        self.rt_attached = set()
         self._stream_busy_until = 0
         self._stream_q = []
         self.set_ndn_log_level(bool(cfg.get('debug_log', False)))
@@ -399,6 +400,22 @@ class PipeWorld(World):
     def _on_tx(self, wire):
         self.tx.append(wire)
         self.log('tx', wire=wire)
+        if self.cfg.get('nfd'):
+            # a forwarder that accepts every rib command (the legacy front-end's register/unregister need one)
+            try:
+                p = tlvref.parse_interest(wire)
+                names = [bytes(c) for c in p.name]
+                if len(names) >= 4 and names[1] == tlvref.tlv(8, b'nfd'):
+                    from engines.registration import build_response
+                    resp = bytes(enc.make_data(names, enc.MetaInfo(freshness_period=1000), build_response(200, 'OK', ['x'], {}),
+                                               signer=DigestSha256Signer()))
+                    self.after(100, self._nfd_reply, resp)
+            except tlvref.TlvError:
+                pass
+
+    def _nfd_reply(self, resp):
+        if self.face_kind == 'direct':
+            self.face.deliver(resp)
 
     def spawn(self, coro):
         t = self.loop.create_task(coro)
@@ -493,6 +510,10 @@ class PipeWorld(World):
                      msg=exc_brief(e))
             return
         try:
+            if op.get('await_delay_us'):
+                # the application does something else before it awaits the result
+                await asyncio.sleep(op['await_delay_us'] / 1e6)
+                self.log('await-start', id=iid)
             res = await coro
             if self.fe == 'v2':
                 dname, content, _ctx = res
@@ -593,6 +614,22 @@ class PipeWorld(World):
                 ev['delivered'] = bool(ok)
                 ev['t_last'] = now
 
+    async def _v1_register(self, name, handler, validator):
+        try:
+            await self.app.register(name, handler, validator)
+        except asyncio.CancelledError:
+            raise
+        except Exception as e:
+            self.log('register-raised', exc=exc_brief(e), where=innermost_ndn_frame(e))
+
+    async def _v1_unregister(self, name):
+        try:
+            await self.app.unregister(name)
+        except asyncio.CancelledError:
+            raise
+        except Exception as e:
+            self.log('unregister-raised', exc=exc_brief(e), where=innermost_ndn_frame(e))
+
     def _feed_many(self, pieces):
         for piece in pieces:
             self.peer.feed(piece)
@@ -626,12 +663,17 @@ class PipeWorld(World):
                                                 content_bytes(rs.get('content', 4)), signer=DigestSha256Signer()))
                     world.after(rs.get('delay_us', 0), world._do_put, hid, param.nonce, k, dwire)
         try:
+            key = tuple(bytes(c) for c in comps_of(op['prefix']))
             if self.disp is not None:
                 self.disp.register(name, handler)
             elif self.fe == 'v2':
                 self.app.attach_handler(name, handler, validator)
+            elif op.get('via') == 'register' and self.cfg.get('nfd') and key not in self.rt_attached and self.face.running:
+                # legacy front-end: register() installs the filter (first thing it does) and then sends the command
+                self.spawn(self._v1_register(name, handler, validator))
             else:
                 self.app.set_interest_filter(name, handler, validator)
+            self.rt_attached.add(key)
             self.log('attach', hid=hid, prefix=comps_of(op['prefix']), ok=True)
         except ValueError as e:
             self.log('attach', hid=hid, prefix=comps_of(op['prefix']), ok=False, exc='ValueError')
@@ -665,12 +707,17 @@ class PipeWorld(World):
     def op_detach(self, op):
         name = name_in_repr(op['prefix'], op.get('repr', 'uri'))
         try:
+            key = tuple(bytes(c) for c in comps_of(op['prefix']))
             if self.disp is not None:
                 self.disp.unregister(name)
             elif self.fe == 'v2':
                 self.app.detach_handler(name)
+            elif op.get('via') == 'unregister' and self.cfg.get('nfd') and key in self.rt_attached and self.face.running:
+                # legacy front-end: unregister() removes the filter (first thing it does) and then sends the command
+                self.spawn(self._v1_unregister(name))
             else:
                 self.app.unset_interest_filter(name)
+            self.rt_attached.discard(key)
             self.log('detach', prefix=comps_of(op['prefix']), ok=True)
         except KeyError:
             self.log('detach', prefix=comps_of(op['prefix']), ok=False, exc='KeyError')
@@ -718,10 +765,13 @@ class PipeWorld(World):
         for op in ops:
             t = op['at']
             if op['op'] == 'express':
-                t += (op.get('lifetime') or 4000) * 1000 + (op.get('validator') or {}).get('latency_us', 0)
+                t += (op.get('lifetime') or 4000) * 1000 + (op.get('validator') or {}).get('latency_us', 0) \
+                    + 2 * (op.get('await_delay_us') or 0)
             elif op['op'] == 'rx':
                 t += tail + op.get('gap_us', 0) * (len(op.get('cuts', [])) + 1)
             end = max(end, t)
+        # a backward step of the wall clock lengthens what the current front-end believes is left of a lifetime
+        end += sum(abs(o.get('delta_ms', 0)) * 1000 for o in ops if o['op'] == 'wall_jump')
         return end + 20_000
 
     def execute(self, keep_events=False):
